@@ -10,7 +10,7 @@ import numpy as np
 from ..core import pmap
 from .. import explore as EXP
 from .. import e1
-from ..nets import spec, ma, hill, gen, ssa_networks
+from ..nets import spec, ma, hill, gen, ssa_networks, big_networks
 from ..ref import ssa as RS, crn
 
 A, B, C, E = 'A', 'B', 'C', 'E'
@@ -67,24 +67,54 @@ def nullspace_int(S):
     return basis
 
 
+_CONE_CACHE = {}
+
+
 def in_cone(delta, cols, max_events):
-    """is delta a non-negative integer combination of the columns with at most max_events terms?"""
+    """is delta a non-negative integer combination of the columns with at most max_events terms?
+    Small cases by enumeration; otherwise the minimum number of terms from an exact integer programme (cached)."""
     nr = len(cols)
     if all(d == 0 for d in delta):
         return True
+    key = (tuple(delta), tuple(map(tuple, cols)))
+    if key not in _CONE_CACHE:
+        _CONE_CACHE[key] = min_terms(list(delta), cols)
+    need = _CONE_CACHE[key]
+    return need is not None and need <= max_events
+
+
+def min_terms(delta, cols):
+    """minimum number of columns (with repetition) that sum to delta; None if there is no such combination"""
+    nr = len(cols)
 
     def rec(j, rem, left):
         if all(v == 0 for v in rem):
-            return True
+            return 0
         if j == nr or left == 0:
-            return False
+            return None
         col = cols[j]
+        best = None
         for n in range(left + 1):
             r2 = [a - n * b for a, b in zip(rem, col)]
-            if rec(j + 1, r2, left - n):
-                return True
-        return False
-    return rec(0, list(delta), max_events)
+            sub = rec(j + 1, r2, left - n if best is None else min(left - n, best - n - 1))
+            if sub is not None and (best is None or sub + n < best):
+                best = sub + n
+            if best is not None and n + 1 >= best:
+                break
+        return best
+    small = rec(0, list(delta), 3)
+    if small is not None:
+        return small
+    from scipy.optimize import milp, LinearConstraint, Bounds
+    A = np.array(cols, dtype=float).T
+    res = milp(c=np.ones(nr), constraints=LinearConstraint(A, np.array(delta, dtype=float), np.array(delta, dtype=float)),
+               integrality=np.ones(nr), bounds=Bounds(0, np.inf))
+    if not res.success:
+        return None
+    n = np.round(res.x)
+    if not np.array_equal(A @ n, np.array(delta, dtype=float)) or n.min() < 0:
+        raise RuntimeError('integer programme returned a non-solution for %s' % (delta,))
+    return int(n.sum())
 
 
 def invariants(sp, cfg, rows, consumed, massaction_only, pending_cols=None):
@@ -133,6 +163,12 @@ def configs(tier):
         for sp in extra_networks(n0, k1, k2):
             for sim in ('ssa', 'volume', 'delay'):
                 out.append(dict(spec=sp, sim=sim, safe=True, ma_only=False, bound=2))
+    # seven species / eight channels and ten channels (small counts, so that the path search stays bounded)
+    for sp in big_networks():
+        if len(sp['reactions']) >= 8:
+            for sim in ('ssa', 'volume', 'delay'):
+                for safe in (False, True):
+                    out.append(dict(spec=sp, sim=sim, safe=safe, ma_only=True, bound=1, scan_max=2))
     return out
 
 
@@ -184,7 +220,9 @@ def run_config(c, cfg):
                                 got['rows'], fresh_q['rows']), dict(cfg=cfg, us=us, rows=got['rows'], source=tag, letters=letters))
         c.count('traces'); c.count('evaluations')
         rows = got['rows']
-        consumed = max(got['consumed'], 1)
+        # every firing consumes two draws; draws beyond the script (constant tail) count as well
+        draws = got['consumed'] + got.get('overrun', 0)
+        consumed = draws + 1 if sim == 'delay' else draws // 2 + 1      # a delivery is a term of its own and draws nothing
         bad = invariants(sp, cfg, rows, consumed, cfg['ma_only'])
         if not bad and not (sim == 'delay' and has_delay):
             bad = absorbed(sp, cfg, rows, V)
@@ -222,7 +260,7 @@ def run_config(c, cfg):
         from ..modelspec import state_vector
         S, Sd = crn.stoich(sp)
         ns = len(sp['species'])
-        for xs in itertools.product(range(4), repeat=ns):
+        for xs in itertools.product(range(cfg.get('scan_max', 3) + 1), repeat=ns):
             x = dict(zip(sp['species'], [float(v) for v in xs]))
             out = impl.iface.py_verif_compute_propensities(state_vector(impl.model, x), 0.0, V,
                                                            'stochvol' if sim == 'volume' else 'stoch')
@@ -269,6 +307,6 @@ def replay(ctx, case):
         got = e1.run_volume(impl, us, TIMES, qdt, dict(type='const', V=2.0))
     else:
         got = e1.run_delay(impl, us, TIMES, qdt, len(TIMES), dt=qdt)
-    bad = invariants(sp, cfg, got['rows'], max(got['consumed'], 1), cfg['ma_only']) or absorbed(sp, cfg, got['rows'], 2.0)
+    bad = invariants(sp, cfg, got['rows'], got['consumed'] + got.get('overrun', 0) + 1, cfg['ma_only']) or absorbed(sp, cfg, got['rows'], 2.0)
     if bad:
         ctx.violation('C06/replay/' + bad[0], bad[1], case)
